@@ -430,8 +430,15 @@ func (p *postHandshake) processPostHandshakeMessages(ctx context.Context, conn C
 
 			return err
 		}
+		before := p.state.HandshakeRecvSequence
 		if err := p.handlePostHandshakeMessage(ctx, conn, message, item.Epoch); err != nil {
 			return err
+		}
+		if p.state.HandshakeRecvSequence == before {
+			// The handler rejected the message with a fatal alert and left it at the
+			// head of the cache. Stop: looping would process it, and send the alert,
+			// forever.
+			return dtlserrors.ErrUnexpectedPostHandshakeMessage
 		}
 	}
 
